@@ -1,5 +1,8 @@
 import MySensors.Driver.Wire
 import MySensors.Driver.GwCmd
+import MySensors.Driver.PersistCmd
+import MySensors.Driver.OtaCmd
+import MySensors.Driver.FramingCmd
 
 namespace MySensors.Driver
 open MySensors
@@ -29,7 +32,7 @@ def valCmd (cmd : String) (args : List String) : Option String :=
 
 /-- state-free command groups; each property family adds its own `…Cmd` here -/
 def cmdTable : List (String → List String → Option String) :=
-  [codecCmd, valCmd]
+  [codecCmd, valCmd, mqttCmd, framingCmd, otaCmd, persistCmd]
 
 /-- one protocol line → new driver state and one output line -/
 def stepLine (st : DState) (line : String) : DState × String :=
